@@ -85,6 +85,10 @@ func c06Generate(c *mon.Ctx) {
 		}
 	}
 
+	// a soak: the same operation many hundred times in a row in one process (zero and non-zero operands), every result
+	// checked: behaviour tied to a call counter (a health check on every 256th inversion that mistakes Invert(0) = 0 for a fault)
+	c.Structured(func() any { return &c06Case{Op: "soak", S: hx(gen.Draw(mvr, n).X), Class: "soak"} })
+
 	// unary ops on every structured value
 	for _, v := range st {
 		for _, op := range []string{"square", "invert", "set", "copy"} {
@@ -383,6 +387,45 @@ func c06Run(c *mon.Ctx, csAny any) {
 			d.Multiply(mon.Scal(big.NewInt(3))).Add(mon.Scal(big.NewInt(1)))
 		})
 	}
+	if cs.Op == "soak" {
+		x := mon.BigH(cs.S)
+		xi := new(big.Int).ModInverse(x, n)
+		rounds := c.N(700, 70000)
+
+		c.Count("soak")
+
+		for i := 0; i < rounds; i++ {
+			var z, y *secp256k1.Scalar
+
+			pan, pv := mon.Call(func() {
+				z = secp256k1.NewScalar().Invert()
+				y = mon.Scal(x).Invert()
+			})
+
+			c.Eval(2)
+
+			if pan {
+				c.Fail(fmt.Sprintf("round %d of %d consecutive inversions (0 and a non-zero value alternating) panicked: %v", i, rounds, pv), "arith-soak-panic", nil)
+				return
+			}
+
+			if !z.IsZero() || mon.ScalVal(y).Cmp(xi) != 0 {
+				c.Fail(fmt.Sprintf("round %d of %d consecutive inversions: Invert(0) = %x, Invert(x) = %x want %x", i, rounds, mon.ScalVal(z), mon.ScalVal(y), xi), "arith-soak-value", nil)
+				return
+			}
+
+			if i%3 == 0 {
+				// and the other operations in between, so that the counters of each advance at different rates
+				if v := mon.ScalVal(mon.Scal(x).Square().Multiply(mon.Scal(xi)).Multiply(mon.Scal(xi))); v.Cmp(big.NewInt(1)) != 0 {
+					c.Fail(fmt.Sprintf("round %d: x^2 * x^-2 = %x", i, v), "arith-soak-value", nil)
+					return
+				}
+			}
+		}
+
+		return
+	}
+
 	var (
 		sv *big.Int
 		s  *secp256k1.Scalar
